@@ -252,3 +252,82 @@ def bounds_from_facts (facts, base, fnode=None):
       if op == '<': uppers.append((ob, k))
       elif op == '<=': uppers.append((ob, k + 1))
   return lower, uppers
+
+# ---------------------------------------------------------------------------
+# evaluating a test under a constant substitution
+
+class _Unknown(Exception): pass
+
+def eval_expr (repo, module, e, env, cls=None):
+  """evaluate expression with env {expr_text: value}; raises _Unknown"""
+  t = norm(e)
+  if t in env: return env[t]
+  if isinstance(e, ast.Constant): return e.value
+  if isinstance(e, ast.Tuple): return tuple(eval_expr(repo, module, x, env, cls) for x in e.elts)
+  if isinstance(e, ast.List): return [eval_expr(repo, module, x, env, cls) for x in e.elts]
+  if isinstance(e, ast.Set): return set(eval_expr(repo, module, x, env, cls) for x in e.elts)
+  if isinstance(e, ast.UnaryOp):
+    v = eval_expr(repo, module, e.operand, env, cls)
+    if isinstance(e.op, ast.Not): return not v
+    if isinstance(e.op, ast.USub): return -v
+    if isinstance(e.op, ast.Invert): return ~v
+  if isinstance(e, ast.BoolOp):
+    vals = [eval_expr(repo, module, x, env, cls) for x in e.values]
+    if isinstance(e.op, ast.And):
+      r = True
+      for v in vals:
+        r = v
+        if not v: break
+      return r
+    r = False
+    for v in vals:
+      r = v
+      if v: break
+    return r
+  if isinstance(e, ast.BinOp):
+    a = eval_expr(repo, module, e.left, env, cls); b = eval_expr(repo, module, e.right, env, cls)
+    try:
+      op = type(e.op)
+      if op is ast.Add: return a + b
+      if op is ast.Sub: return a - b
+      if op is ast.BitAnd: return a & b
+      if op is ast.BitOr: return a | b
+      if op is ast.LShift: return a << b
+      if op is ast.RShift: return a >> b
+      if op is ast.Mult: return a * b
+    except Exception: raise _Unknown()
+  if isinstance(e, ast.Compare):
+    left = eval_expr(repo, module, e.left, env, cls)
+    for op, rt in zip(e.ops, e.comparators):
+      right = eval_expr(repo, module, rt, env, cls)
+      o = type(op)
+      try:
+        ok = {ast.Eq: lambda: left == right, ast.NotEq: lambda: left != right, ast.Lt: lambda: left < right,
+              ast.LtE: lambda: left <= right, ast.Gt: lambda: left > right, ast.GtE: lambda: left >= right,
+              ast.In: lambda: left in right, ast.NotIn: lambda: left not in right,
+              ast.Is: lambda: left is right, ast.IsNot: lambda: left is not right}[o]()
+      except Exception: raise _Unknown()
+      if not ok: return False
+      left = right
+    return True
+  v = repo.try_const(module, e, cls, default=_Unknown)
+  if v is _Unknown: raise _Unknown()
+  return v
+
+def eval_test (repo, module, test, env, cls=None):
+  """True / False / None (unknown)"""
+  try: return bool(eval_expr(repo, module, test, env, cls))
+  except _Unknown: return None
+  except Exception: return None
+
+def reachable_under (repo, module, g, node, env, cls=None):
+  """is `node` reachable given that expressions in env have the given constant
+  values?  Uses only the dominating guards: returns False when some dominating
+  guard evaluates (under env) to the opposite of the polarity it was passed
+  with, True otherwise."""
+  for test, pol, b in g.guards(node):
+    if isinstance(test, (ast.For, ast.AsyncFor)): continue
+    v = eval_test(repo, module, test, env, cls)
+    if v is None: continue
+    if v != pol: return False
+  return True
